@@ -465,7 +465,9 @@ func runC04(c *fw.Ctx) {
 	})
 
 	// (d) ParseFile == ParseObject on the file's bytes; unreadable paths give an error
-	dir := filepath.Join(c.WorkDir, fmt.Sprintf("files.%d.%t", c.Shard, c.Arch386))
+	// private to this worker process: the passes (main, cov, 386) run shards with the same number at the same time
+	dir := filepath.Join(c.WorkDir, fmt.Sprintf("files.%d.%t.%d", c.Shard, c.Arch386, os.Getpid()))
+	defer os.RemoveAll(dir)
 	os.MkdirAll(dir, 0o755)
 	c.Cases("parsefile", c.N(200, 30000), false, func(i int, r *rng.R) {
 		var text string
